@@ -1,7 +1,7 @@
 (* C01 -- Consumer MDIB is an exact mirror of the provider MDIB after any report history.
    Property theorems only (models: Mdib/Model.v provider, Mdib/Consumer.v consumer). *)
 From Coq Require Import List ZArith.
-From SDC Require Import Mdib.Model Mdib.Proofs Mdib.Consumer Mdib.Consumer_Proofs.
+From SDC Require Import Mdib.Model Mdib.Proofs Mdib.Proofs_Ctx Mdib.Consumer Mdib.Consumer_Proofs.
 Import ListNotations.
 Open Scope Z_scope.
 
@@ -17,6 +17,24 @@ Theorem C01_mirror_step : forall k m t c,
   snd (receive c r) = map (fun e => (N_STATE, fst e)) (t_s t).
 Proof. exact mirror_step_state_tx. Qed.
 Print Assumptions C01_mirror_step.
+
+(* the same for one committed CONTEXT transaction (new, updated, associated, disassociated states; location change)
+   as long as it reports everything it does (deleting a context state through the entity interface cannot be
+   reported - that case is the known finding): mirror afterwards, notifications = exactly the reported states *)
+Theorem C01_mirror_step_context : forall m t c,
+  ctx_ok m t -> no_deletion t -> t_c t <> [] -> mirrors c m ->
+  let m' := commit_states m t in
+  let r := RCtx (mkVg (ver m') (cm_seq c) (cm_inst c)) (ctx_report_items t) in
+  mirrors (fst (receive c r)) m' /\
+  snd (receive c r) = map (fun e => (N_CTX, fst e)) (ctx_report_items t).
+Proof. exact mirror_step_ctx_tx. Qed.
+Print Assumptions C01_mirror_step_context.
+
+(* every accepted context transaction body yields such an item list *)
+Theorem C01_context_body_wellformed : forall m acts t,
+  ctx_only acts -> fresh_ok m acts -> body 5 m empty_tx acts = Ok t -> ctx_ok m t.
+Proof. exact (fun m acts t Ho Hf B => body_ctx_ok m acts empty_tx t Ho Hf (empty_ctx_ok m) B). Qed.
+Print Assumptions C01_context_body_wellformed.
 
 (* every finite history of state transactions (any kinds, classic or entity interface, rejected calls,
    aborts, empty transactions), reports processed in emission order: mirror after every prefix (the
